@@ -123,7 +123,7 @@ def sweep(tier):
     for a, b in pairs():
         out.append({"kind": "pair", "a": a, "b": b, "req": [True, False], "style": "ref_inline", "literal": False, "defaults": False,
                     "name": "unitPrice"})
-    return out
+    return out + shape_cases()
 
 
 @st.composite
@@ -327,9 +327,160 @@ def _promotes_inherited(s: dict, comps: dict, seen: frozenset = frozenset()) -> 
     return False
 
 
+# ------------------------------------------------------------------------------------------------ composition shapes
+# How a composition is *written*: every shape declares the same facts (which properties, which of them required); the composed
+# class must have every property and require exactly the required ones. Where the shape is a property's schema (inline, possibly
+# nullable) the class is the one the holder's decoder builds.
+_BASE = {"type": "object", "properties": {"baseName": {"type": "string"}, "baseNote": {"type": "string"}}, "required": ["baseName"]}
+_REF = {"$ref": "#/components/schemas/ShapeBase"}
+_OWN = {"type": "object", "properties": {"ownCount": {"type": "integer"}, "ownFlag": {"type": "boolean"}}, "required": ["ownCount"]}
+_OWN2 = {"type": "object", "properties": {"moreText": {"type": "string"}}}
+SHAPES = {
+    # name: (schema, expected {property: required})
+    "ref_and_inline": ({"allOf": [_REF, _OWN]}, {"baseName": True, "baseNote": False, "ownCount": True, "ownFlag": False}),
+    "single_inline_with_sibling_properties": ({"allOf": [_OWN], "properties": {"moreText": {"type": "string"}}, "required": ["moreText"]},
+                                              {"ownCount": True, "ownFlag": False, "moreText": True}),
+    "single_inline_with_sibling_required": ({"allOf": [_OWN], "required": ["ownFlag"]}, {"ownCount": True, "ownFlag": True}),
+    "single_inline_typed_with_siblings": ({"type": "object", "allOf": [_OWN], "properties": {"moreText": {"type": "string"}}},
+                                          {"ownCount": True, "ownFlag": False, "moreText": False}),
+    "two_inline_with_siblings": ({"allOf": [_OWN, _OWN2], "properties": {"sibText": {"type": "string"}}, "required": ["sibText", "moreText"]},
+                                 {"ownCount": True, "ownFlag": False, "moreText": True, "sibText": True}),
+    "ref_inline_and_sibling_required": ({"allOf": [_REF, _OWN], "required": ["baseNote", "ownFlag"]},
+                                        {"baseName": True, "baseNote": True, "ownCount": True, "ownFlag": True}),
+    "typed_object_with_allof": ({"type": "object", "allOf": [_REF, _OWN]}, {"baseName": True, "baseNote": False, "ownCount": True, "ownFlag": False}),
+    "three_members": ({"allOf": [_REF, _OWN, _OWN2]}, {"baseName": True, "baseNote": False, "ownCount": True, "ownFlag": False, "moreText": False}),
+}
+NULLABLE_NOTATIONS = ("none", "nullable_30", "typelist_31", "typelist_31_null_first")
+
+
+def _snake(s_: str) -> str:
+    import re as _re
+
+    return _re.sub(r"(?<=[a-z0-9])(?=[A-Z])", "_", s_).lower()
+
+
+def shape_cases():
+    out = []
+    for shape in SHAPES:
+        out.append({"kind": "shape", "shape": shape, "position": "component", "nullable": "none"})
+        for nn in NULLABLE_NOTATIONS:
+            for req in (True, False):
+                out.append({"kind": "shape", "shape": shape, "position": "property", "nullable": nn, "required": req})
+    return out
+
+
+def _shape_doc(case):
+    import copy as _c
+
+    sch, _ = SHAPES[case["shape"]]
+    sch = _c.deepcopy(sch)
+    nn = case["nullable"]
+    ver = "3.1.0" if nn.startswith("typelist") else "3.0.3"
+    if nn == "nullable_30":
+        sch = {"type": "object", "nullable": True, **sch}
+    elif nn == "typelist_31":
+        sch = {**sch, "type": ["object", "null"]}
+    elif nn == "typelist_31_null_first":
+        sch = {**sch, "type": ["null", "object"]}
+    schemas = {"ShapeBase": _c.deepcopy(_BASE)}
+    if case["position"] == "component":
+        schemas["Composed"] = sch
+    else:
+        schemas["Holder"] = {"type": "object", "properties": {"inner": sch, "tag": {"type": "string"}}, **({"required": ["inner"]} if case.get("required") else {})}
+    return {"openapi": ver, "info": {"title": "t", "version": "1"}, "paths": {}, "components": {"schemas": schemas}}
+
+
+def _run_shape(case, ctx):
+    _, expected = SHAPES[case["shape"]]
+    site = {"shape": case["shape"], "position": case["position"], "nullable": case["nullable"]}
+    res = sut.generate(_shape_doc(case), cfg={})
+    ctx.evals()
+    ctx.label("shape:" + case["shape"], "shape_position:" + case["position"], "shape_nullable:" + case["nullable"])
+    ctx.nontrivial([case["shape"], case["position"], case["nullable"], case.get("required")])
+    full = {"baseName": "n", "baseNote": "x", "ownCount": 3, "ownFlag": True, "moreText": "m", "sibText": "s"}
+    inst = {k: full[k] for k in expected}
+    try:
+        if res.exc is not None or not res.accepted:
+            ctx.violation("composed.valid_composition_generated", {**site, "why": "rejected_or_crashed"}, (repr(res.exc) if res.exc else res.diag_text())[:300])
+            return
+        try:
+            pkg = sut.Loaded(res.package_dir)
+            models = pkg.models
+        except BaseException as e:  # noqa: BLE001
+            if behave._is_ctl(e):
+                raise
+            ctx.violation("composed.package_imports", {**site, "exc": type(e).__name__}, repr(e)[:300])
+            return
+        with pkg:
+            if case["position"] == "component":
+                cls = getattr(models, "Composed", None)
+                if cls is None:
+                    ctx.violation("composed.valid_composition_generated" if "Composed" in res.diag_text() else "composed.accounted_for", site, res.diag_text()[:300])
+                    return
+                obj = None
+            else:
+                Holder = getattr(models, "Holder", None)
+                if Holder is None:
+                    ctx.violation("composed.valid_composition_generated" if "Holder" in res.diag_text() else "composed.accounted_for", site, res.diag_text()[:300])
+                    return
+                try:
+                    obj = Holder.from_dict({"inner": dict(inst), "tag": "t"}).inner
+                except BaseException as e:  # noqa: BLE001
+                    if behave._is_ctl(e):
+                        raise
+                    ctx.violation("composed.decode.raises", {**site, "exc": type(e).__name__}, repr(e)[:300])
+                    return
+                cls = type(obj)
+                if not hasattr(cls, "from_dict"):
+                    ctx.violation("composed.all_properties", {**site, "why": "not_a_model"}, f"inner decoded to {cls.__name__}: {obj!r}"[:300])
+                    return
+            sig = inspect.signature(cls)
+            have = set(sig.parameters)
+            missing = [k for k in expected if _snake(k) not in have and k not in have]
+            if missing:
+                ctx.violation("composed.all_properties", site, f"{cls.__name__}({', '.join(sig.parameters)}) lacks {missing}")
+                return
+            mand = {n for n, p_ in sig.parameters.items() if p_.default is inspect.Parameter.empty}
+            want = {_snake(k) for k, r in expected.items() if r}
+            if mand != want:
+                ctx.violation("required.if_any_member_requires", site, f"{cls.__name__}: mandatory {sorted(mand)} vs required {sorted(want)}")
+            # round trip, and a required key that is missing must be refused
+            try:
+                enc = cls.from_dict(dict(inst)).to_dict()
+                if not instances.json_eq(enc, inst):
+                    ctx.violation("composed.roundtrip.encode_equals", site, f"{inst!r} -> {enc!r}"[:300])
+            except BaseException as e:  # noqa: BLE001
+                if behave._is_ctl(e):
+                    raise
+                ctx.violation("composed.decode.raises", {**site, "exc": type(e).__name__}, repr(e)[:300])
+            for k, r in expected.items():
+                if not r:
+                    continue
+                try:
+                    cls.from_dict({kk: vv for kk, vv in inst.items() if kk != k})
+                except BaseException as e:  # noqa: BLE001
+                    if behave._is_ctl(e):
+                        raise
+                    continue
+                ctx.violation("required.missing_key_refused", {**site}, f"{cls.__name__} decoded without required {k}")
+            if case["position"] == "property" and case["nullable"] != "none":
+                try:
+                    got = Holder.from_dict({"inner": None, "tag": "t"}).inner
+                    if got is not None:
+                        ctx.violation("composed.null_is_none", site, repr(got)[:200])
+                except BaseException as e:  # noqa: BLE001
+                    if behave._is_ctl(e):
+                        raise
+                    ctx.violation("composed.null_is_none", {**site, "exc": type(e).__name__}, repr(e)[:200])
+    finally:
+        env.rm(res.out)
+
+
 def run(case, ctx):
     if case["kind"] == "pair":
         _run_pair(case, ctx)
+    elif case["kind"] == "shape":
+        _run_shape(case, ctx)
     else:
         _run_composition(case, ctx)
 
